@@ -225,11 +225,9 @@ pub fn parse_stdout(out: &str) -> Result<Printed, String> {
                 }
                 h.pop();
                 let sep = lines.next().ok_or("missing separator line after the header")?;
-                if !sep.starts_with("|-") || !sep.chars().all(|c| c == '|' || c == '-') {
-                    return Err(format!("malformed separator line {:?}", sep));
-                }
-                if sep.matches('|').count() != h.len() + 2 {
-                    return Err(format!("separator has {} columns, header {}", sep.matches('|').count() - 1, h.len() + 1));
+                // the rule under the header: no letters or digits (its exact shape is not prescribed)
+                if sep.chars().any(|c| c.is_alphanumeric()) {
+                    return Err(format!("the line after the header is not a rule: {:?}", sep));
                 }
                 p.header = Some(h);
             } else {
